@@ -1,5 +1,5 @@
 From Coq Require Import List String Ascii ZArith Bool Arith NArith.
-From GM Require Import Base.Result Facts.GoFacts Facts.Ana Model.Enums Model.Fields Model.Classify Model.Names Model.SqlTypes Model.Loader Model.Dart.
+From GM Require Import Base.Result Facts.GoFacts Facts.Ana Model.Enums Model.Fields Model.Classify Model.Names Model.SqlTypes Model.Loader Model.Unions Model.Dart.
 Import ListNotations.
 Local Open Scope string_scope.
 
@@ -22,6 +22,15 @@ Fixpoint strs_eqb (a b : list string) : bool :=
 
 Definition node_local (pr : prog) (n : nrec) : string := match nr_at n with GNamed id => local_name_of pr id | _ => "" end.
 
+(** the unions a member class must declare, decided from the facts of the program (the union detection model, C11),
+    not from the Implements list of the observed node: the analysed exported unions that list the struct *)
+Definition union_analysed (a : ana_obs) (id : string) : bool :=
+  existsb (fun n => gty_eqb (nr_at n) (GNamed id) && akind_eqb (nr_kind n) KdUnion && nr_in_types n) (ao_nodes a).
+Definition implements_by_model (pr : prog) (a : ana_obs) (n : nrec) : list string :=
+  match nr_at n with
+  | GNamed sid => map (local_name_of pr) (filter (union_exported pr) (set_implements (fetch_unions pr) (union_analysed a) sid))
+  | _ => [] end.
+
 Definition find_named (pr : prog) (a : ana_obs) (k : akind) (dart_name : string) : list nrec :=
   filter (fun n => akind_eqb (nr_kind n) k &&
                    String.eqb (if akind_eqb k KdStruct then dart_class_name pr n else title (node_local pr n)) dart_name) (ao_nodes a).
@@ -39,6 +48,7 @@ Definition chk_model (c : c6_case) : bool :=
     let ns := find_named pr a KdStruct (dc_name cl) in
     match ns with
     | n :: _ => ambiguous ns || (strs_eqb (dart_ctor_args n) (dc_ctor cl) && strs_eqb (dart_implements pr n) (dc_implements cl)
+                                 && strs_eqb (implements_by_model pr a n) (dc_implements cl)
                                  (* fromJson reads and toJson writes exactly the keys Go uses, in field order, one per constructor argument *)
                                  && dc_has_json cl
                                  && strs_eqb (dart_json_keys n) (dc_from cl)
